@@ -4,3 +4,4 @@ open Amoco.Value.Props
 #print axioms history_preserved
 #print axioms unsound_rewrite_is_visible
 #print axioms memory_maps_are_values
+#print axioms operand_after_simplify
